@@ -422,7 +422,7 @@ def emit_fn(vf, src, path, spec, label=None, indent='    ', _canary_copy=False, 
     for (pat, rep, reason) in spec.replace:
         nb, cnt = re.subn(pat, rep, body)
         if cnt == 0:
-            if reason.startswith('R6'):
+            if reason.startswith('R6'):   # optional rewrites (apply where the pattern occurs)
                 continue
             raise ToolLimit('declared rewrite %r did not apply in %s' % (pat, fname))
         body = nb
